@@ -39,6 +39,7 @@ MV4_9 = Fraction(49, 10 ** 4)
 FLOOR = Fraction(1, 10 ** 5)
 ORACLE_TOL = Fraction(1, 10 ** 9)
 CASES_PER_FILE = 2000
+HIST_PER_FILE = 500          # histories (2-12 calls each) per generated file
 
 
 # --------------------------------------------------------------------------
@@ -172,6 +173,38 @@ def call_pressure(im, vcc, cal, v):
     except Exception as e:
         return ("exc", "%s raised %s" % (where, type(e).__name__))
     return num_result(r)
+
+
+def call_history(im, vcc, ops):
+    """ONE sensor object, the calls `ops` made on it in order; ops: ("read", v) |
+    ("cal", v, p), v = what the analog input reads during the call.
+    -> one observation per call: read: num_result / ("exc", name); cal: ("ok", None) /
+    ("exc", name).  The object lives on after a call that raised."""
+    try:
+        d = devices(im)
+        cls = im.pressure.REVAnalogPressureSensor
+        s = cls(d.p_channel) if vcc is None else cls(d.p_channel, vcc)
+    except Exception as e:
+        return [("exc", "constructor raised %s" % type(e).__name__)] * len(ops)
+    obs = []
+    try:
+        for op in ops:
+            try:
+                d.p_sim.setVoltage(op[1])
+                if op[0] == "read":
+                    obs.append(num_result(s.pressure))
+                else:
+                    s.calibrate(op[2])
+                    obs.append(("ok", None))
+            except Exception as e:
+                obs.append(("exc", type(e).__name__))
+    finally:
+        try:
+            s.sensor = None
+        except Exception:
+            pass
+        del s
+    return obs
 
 
 # --------------------------------------------------------------------------
@@ -668,8 +701,17 @@ Definition impl_pressure_total := C18_pressure_total gen_consts gen_consts_ok.
 Definition impl_calibrated := C18_calibrated gen_consts gen_consts_ok.
 Definition impl_calibrated_general := C18_calibrated_general gen_consts gen_consts_ok.
 Definition impl_floor_positive := C18_floor_positive gen_consts gen_consts_ok.
+Definition impl_reads_keep_state := C18_reads_keep_state gen_consts.
+Definition impl_history_calibrated := C18_history_calibrated gen_consts gen_consts_ok.
+Definition impl_history_calibrated_general := C18_history_calibrated_general gen_consts gen_consts_ok.
+Definition impl_history_uncalibrated := C18_history_uncalibrated gen_consts gen_consts_ok.
+Definition impl_history_reads_never_raise := C18_history_reads_never_raise gen_consts gen_consts_ok.
+Definition impl_history_calibrate_outcome := C18_history_calibrate_outcome gen_consts gen_consts_ok.
+Definition impl_history_spec := C18_history_spec gen_consts gen_consts_ok.
 Definition impl_sensors := (impl_sonar_scale, impl_sonar_native, impl_pressure_formula, impl_pressure_below_floor,
-  impl_pressure_total, impl_calibrated, impl_calibrated_general, impl_floor_positive).
+  impl_pressure_total, impl_calibrated, impl_calibrated_general, impl_floor_positive,
+  impl_reads_keep_state, impl_history_calibrated, impl_history_calibrated_general, impl_history_uncalibrated,
+  impl_history_reads_never_raise, impl_history_calibrate_outcome, impl_history_spec).
 Print Assumptions impl_sensors.
 """
 
@@ -761,6 +803,119 @@ def gen_pressure_case(r):
 
 def gen_pressure_case_voltage(r):
     return r.choice([0.0, 1e-6, 0.00001, r.uniform(0.0, 5.0), r.uniform(0.0, 5.0), -r.uniform(0, 1)])
+
+
+# ---- histories: one sensor object, a sequence of reads and calibrations
+
+def R(v):
+    return ("read", v)
+
+
+def C(v, p):
+    return ("cal", v, p)
+
+
+def systematic_histories():
+    """smallest / most ordinary first; every order of reads and calibrations up to
+    length 3, then recalibration, failed calibration, floor, vcc = 0"""
+    out = []
+    for vcc in (5.0, 3.3, None):
+        out += [
+            (vcc, [R(2.0), C(2.0, 50), R(2.0)]),                      # read BEFORE calibrate
+            (vcc, [C(2.0, 50), R(2.0), R(2.0)]),
+            (vcc, [R(0.5), R(1.0), R(2.0), R(0.5)]),                  # uncalibrated reads in a row
+            (vcc, [C(1.0, 20), R(1.0), C(3.1, 110), R(3.1), R(1.55)]),  # recalibrate after a read
+            (vcc, [C(2.0, 50), C(1.0, 0), R(1.0), R(2.0)]),           # two calibrations in a row
+            (vcc, [R(2.0), R(1.0), C(1.0, 60.5), R(3.0), R(1.0)]),    # reads elsewhere in between
+            (vcc, [R(2.0), C(2.0, -25), R(2.0)]),                     # failed calibrate: unchanged
+            (vcc, [C(2.0, 50), R(2.0), C(2.0, -25), R(2.0)]),
+            (vcc, [R(0.0), C(0.0, 60.0), R(0.0), R(1e-6), R(1.0)]),   # below the floor
+        ]
+    out += [(0, [R(2.0), C(1.0, 100), R(1.0)]),                       # first read takes the except path
+            (0.0, [R(2.0), R(0.0)]),
+            (-5.0, [R(2.0), C(2.0, 10), R(2.0)])]
+    return out
+
+
+def gen_hist_vcc(r):
+    k = r.random()
+    if k < 0.1:
+        return None
+    if k < 0.35:
+        return r.choice([5, 5.0, 3.3, 12.0, 4.85])
+    if k < 0.85:
+        return r.uniform(0.5, 12.0)
+    if k < 0.92:
+        return r.choice([0, 0.0, -0.0])
+    if k < 0.96:
+        return 10.0 ** r.uniform(-4, 3)
+    return -r.uniform(0.5, 12.0)
+
+
+def gen_hist_voltage(r):
+    k = r.random()
+    if k < 0.7:
+        return r.uniform(0.0, 5.0)
+    if k < 0.8:
+        return round(r.uniform(0.0, 5.0), 2)
+    if k < 0.92:
+        return r.choice([0.0, 1e-6, 0.00001, 5e-6, 1.1e-5, -0.0, -0.5])
+    return r.choice([-1, 1, 1]) * 10.0 ** r.uniform(-7, 1)
+
+
+def gen_hist_p(r):
+    k = r.random()
+    if k < 0.15:
+        return r.choice([0, 0.0, 50, 200, 25, 60.5, 120])
+    if k < 0.87:
+        return r.uniform(0.0, 250.0)
+    if k < 0.96:
+        return r.uniform(-20.0, 0.0)             # outside the property's domain, inside the model's
+    return r.choice([-25, -25.0])                # calibrate raises, the object must stay as it was
+
+
+def gen_history(r, maxlen=8):
+    """Mostly ordinary use: few distinct voltages (so that reads AT a calibration
+    voltage are frequent), reads before / between / after calibrations."""
+    vcc = gen_hist_vcc(r)
+    pool = [gen_hist_voltage(r) for _ in range(r.choice([1, 2, 2, 3]))]
+    volt = lambda: r.choice(pool) if r.random() < 0.85 else gen_hist_voltage(r)
+    n = r.randint(2, maxlen)
+    ops = []
+    shape = r.random()
+    for i in range(n):
+        if i == 0 and shape < 0.45:
+            ops.append(R(volt()))                # a reading before anything else
+        elif r.random() < 0.4:
+            ops.append(C(volt(), gen_hist_p(r)))
+        else:
+            last = [o for o in ops if o[0] == "cal"]
+            if last and r.random() < 0.6:
+                ops.append(R(last[-1][1]))       # at the voltage of the calibration in force
+            else:
+                ops.append(R(volt()))
+    if ops[-1][0] == "cal":                      # a calibration nobody looks at shows nothing
+        ops.append(R(ops[-1][1]))
+    return vcc, ops
+
+
+def history_features(ops):
+    f = set()
+    seen_read = seen_cal = False
+    for o in ops:
+        if o[0] == "cal":
+            if seen_read:
+                f.add("calibrate-after-a-read")
+            if seen_cal:
+                f.add("recalibrate")
+            if Fraction(o[2]) == -25:
+                f.add("failing-calibrate")
+            seen_cal = True
+        else:
+            seen_read = True
+    if not seen_cal:
+        f.add("reads-only")
+    return f
 
 
 def small_frac(r, nonzero=False):
@@ -981,9 +1136,123 @@ def check_pressure(im, vcc, cal, v):
     return None
 
 
+def enc_ops(ops):
+    return [[o[0]] + [enc(x) for x in o[1:]] for o in ops]
+
+
+def dec_ops(ops):
+    return [tuple([o[0]] + [dec(x) for x in o[1:]]) for o in ops]
+
+
+def show_ops(ops):
+    return ", ".join("read at %r V" % (o[1],) if o[0] == "read" else "calibrate(%r) at %r V" % (o[2], o[1])
+                     for o in ops)
+
+
+def check_history(im, vcc, ops):
+    """The property over the lifetime of ONE sensor object: no read raises (and
+    every result is finite); no calibrate(p >= 0) raises; before any calibration a
+    read at v >= floor with Vcc != 0 is 250*v/Vcc - 25; while the last calibration
+    was calibrate(p >= 0) at voltage vc, every read at vc is p -- whatever came
+    before.  Reads after a calibrate(p < 0) are outside the property (no expectation
+    on their value).  -> None | violation (the first call that breaks it)"""
+    obs = call_history(im, vcc, ops)
+    vcc_q = Fraction(5 if vcc is None else vcc)
+    state = None                               # None: never calibrated | ("in", vc, p) | ("out",)
+    head = "REVAnalogPressureSensor(ch%s)" % ("" if vcc is None else ", %r" % (vcc,))
+    for i, (op, o) in enumerate(zip(ops, obs)):
+        base = dict(vcc=enc(vcc), ops=enc_ops(ops[:i + 1]), step=i)
+        desc = "%s: %s" % (head, show_ops(ops[:i + 1]))
+        if op[0] == "cal":
+            p = Fraction(op[2])
+            if p >= 0:
+                if o[0] != "ok":
+                    return viol("history", "history-calibrate-raises",
+                                "%s: the last call -> %r" % (desc, o), **base)
+                state = ("in", op[1], op[2])
+            else:
+                state = ("out",)
+            continue
+        if o[0] != "ok":
+            return viol("history", "history-read-raises-or-not-finite",
+                        "%s: the last read -> %r" % (desc, o), **base)
+        v = Fraction(op[1])
+        if state is None:
+            if v >= FLOOR and vcc_q != 0:
+                exp = 250 * v / vcc_q - 25
+                if not rel_close(o[1], exp, slack=25):
+                    return viol("history", "history-formula",
+                                "%s: the last read = %r, expected 250*V/Vcc-25 = %s (never calibrated)" %
+                                (desc, o[1], float(exp)), **base)
+        elif state[0] == "in" and Fraction(state[1]) == v:
+            if not rel_close(o[1], state[2], slack=25):
+                return viol("history", "history-calibration",
+                            "%s: the last read = %r, expected the pressure %r of the calibration in force "
+                            "(same voltage)" % (desc, o[1], state[2]), **base)
+    return None
+
+
+def shrink_history(im, w):
+    """drop calls, then simplify the numbers, keeping the same kind of failure"""
+    fp = w["fingerprint"]
+    vcc, ops = dec(w["vcc"]), dec_ops(w["ops"])
+
+    def still(vcc_, ops_):
+        x = check_history(im, vcc_, ops_)
+        return x if x is not None and x["fingerprint"] == fp else None
+
+    best = w
+    changed = True
+    while changed:
+        changed = False
+        for i in range(len(ops) - 1):
+            cand = ops[:i] + ops[i + 1:]
+            x = still(vcc, cand)
+            if x is not None:
+                best, ops, changed = x, dec_ops(x["ops"]), True
+                break
+    # simpler numbers: supply 5.0, one voltage 2.0, pressure 50 (all occurrences of a value together)
+    for old_vcc in [vcc]:
+        if old_vcc != 5.0:
+            x = still(5.0, ops)
+            if x is not None:
+                best, vcc = x, 5.0
+    for idx, nice in ((1, [2.0, 1.0, 0.0]), (2, [50, 0])):
+        for val in sorted({o[idx] for o in ops if len(o) > idx}, key=repr):
+            for nv in nice:
+                if nv == val:
+                    break
+                cand = [tuple(nv if (k == idx and x == val) else x for k, x in enumerate(o)) for o in ops]
+                x = still(vcc, cand)
+                if x is not None:
+                    best, ops = x, cand
+                    break
+    return best
+
+
+def oracle_history(im, r, n, first=()):
+    def scan(cases):
+        for vcc, ops in cases:
+            w = check_history(im, vcc, ops)
+            if w:
+                return w
+        return None
+    w = scan(list(first))
+    if w:                                    # a systematic history with the same kind of failure is preferred
+        w2 = scan(systematic_histories())
+        return w2 if w2 and w2["fingerprint"] == w["fingerprint"] else shrink_history(im, w)
+    w = scan(systematic_histories())
+    if w:
+        return w
+    w = scan([gen_history(r, 12) for _ in range(n)])
+    return shrink_history(im, w) if w else None
+
+
 def check_obj(im, o):
     """re-evaluate a violation/corpus dict -> None | violation"""
     k = o.get("kind")
+    if k == "history":
+        return check_history(im, dec(o["vcc"]), dec_ops(o["ops"]))
     if k == "convert":
         return check_convert(im, o["clause"], o["a"], o["b"], o.get("c"), dec(o["x"]), dec(o.get("y")))
     if k == "forest":
@@ -1225,6 +1494,7 @@ def run(ctx):
     n_sonar = 16000 if thorough else 800       # per driver
     n_press = 30000 if thorough else 1500
     n_forest = 4000 if thorough else 300
+    n_hist = 12000 if thorough else 600
 
     pairs = [(a, b) for a in range(4) for b in range(4)]
     triples = [(a, b, c) for a in range(4) for b in range(4) for c in range(4)]
@@ -1264,6 +1534,16 @@ def run(ctx):
                                      "" if cal is None else ",calibrated"))
         ctx.count("pressure:%s" % ("v<floor" if Fraction(v) < FLOOR else "v>=floor"))
 
+    # one object, a sequence of calls (reads before / between / after calibrations)
+    hist = []
+    for k in range(n_hist):
+        sysh = systematic_histories()
+        vcc, ops = sysh[k] if k < len(sysh) else gen_history(r, 12 if thorough else 8)
+        hist.append((vcc, ops, call_history(im, vcc, ops)))
+        ctx.count("history:calls", len(ops))
+        for f in history_features(ops):
+            ctx.count("history:%s" % f)
+
     forest = []
     depth_seen = {}
     for k in range(n_forest):
@@ -1297,6 +1577,17 @@ def run(ctx):
         calt = "None" if cal is None else "(Some (%s, %s))" % (coq_Q(cal[0]), coq_Q(cal[1]))
         return "(%s, %s, %s, %s)" % (coq_Q(5 if vcc is None else vcc), calt, coq_Q(v), coq_obs(res))
 
+    def hist_txt(c):
+        vcc, ops, obs = c
+        steps = []
+        for op, o in zip(ops, obs):
+            if op[0] == "read":
+                steps.append("HRead %s %s" % (coq_Q(op[1]), coq_obs(o)))
+            else:
+                res = "(Some false)" if o[0] == "ok" else "(Some true)" if o == ("exc", "ZeroDivisionError") else "None"
+                steps.append("HCal %s %s %s" % (coq_Q(op[1]), coq_Q(op[2]), res))
+        return "(%s, %s)" % (coq_Q(5 if vcc is None else vcc), coq_list(steps))
+
     def forest_txt(c):
         spec, a, b, x, res = c
         T = coq_list(["(%s, (%s, %s))" % ("None" if p is None else "Some %s" % coq_nat(p), coq_Q(k), coq_Q(d))
@@ -1312,23 +1603,25 @@ def run(ctx):
         ("triple", tri, "triple_case", "triple_ok gen_links", tri_txt, True),
         ("sonar", sonar, "sonar_case", "sonar_ok %s gen_links" % consts_name, sonar_txt, True),
         ("pressure", press, "pressure_case", "pressure_ok %s" % consts_name, press_txt, False),
+        ("history", hist, "history_case", "history_ok %s" % consts_name, hist_txt, False),
         ("forest", forest, "forest_case", "forest_ok", forest_txt, False),
     ]
+    per_file = {"history": HIST_PER_FILE}
     items, index = [], {}
     for fam, cases, ty, okf, txt, needs_gen in families:
         if needs_gen and not gen_ok:
             ctx.obligation("corr:%s (skipped: no regenerated table)" % fam, False, "")
             continue
-        for k, shd in enumerate(shards(cases, CASES_PER_FILE)):
+        for k, shd in enumerate(shards(cases, per_file.get(fam, CASES_PER_FILE))):
             name = "cases_%s_%d" % (fam, k)
             text = (HEADER + ("From W Require Import Gen_units.\n" if needs_gen else "") +
-                    ("From W Require Import Gen_sensors.\n" if consts_name == "gen_consts" and fam in ("sonar", "pressure") else "") +
+                    ("From W Require Import Gen_sensors.\n" if consts_name == "gen_consts" and fam in ("sonar", "pressure", "history") else "") +
                     "Definition cases : list %s := %s.\n" % (ty, coq_list([txt(c) for c in shd])) +
                     "Eval vm_compute in (bad (%s) cases).\n" % okf)
             items.append((name, text))
             index[name] = (fam, k, cases)
     res = ctx.coq_files_parallel(items)
-    disagree = {"conv": [], "triple": [], "sonar": [], "pressure": [], "forest": []}
+    disagree = {"conv": [], "triple": [], "sonar": [], "pressure": [], "history": [], "forest": []}
     for name, _ in items:
         fam, k, cases = index[name]
         rc, out = res[name]
@@ -1336,13 +1629,13 @@ def run(ctx):
         good = rc == 0 and len(lists) == 1 and lists[0] == []
         ctx.obligation("corr:%s (model == implementation)" % name, good, out[-1500:])
         if rc == 0 and lists and lists[0]:
-            disagree[fam] += [cases[k * CASES_PER_FILE + i] for i in lists[0]]
+            disagree[fam] += [cases[k * per_file.get(fam, CASES_PER_FILE) + i] for i in lists[0]]
 
     nontrivial = (sum(1 for a, b, x, res in conv if a != b and x != 0) +
                   sum(1 for a, b, c, x, res in tri if len({a, b, c}) > 1 and x != 0) +
-                  sum(1 for c in sonar if c[2] != 0) + len(press) +
+                  sum(1 for c in sonar if c[2] != 0) + len(press) + len(hist) +
                   sum(1 for spec, a, b, x, res in forest if res[0] == "ok" and len(res[1][0]) >= 2))
-    total = len(conv) + len(tri) + len(sonar) + len(press) + len(forest)
+    total = len(conv) + len(tri) + len(sonar) + len(press) + len(hist) + len(forest)
     ctx.coverage.update({
         "evaluations": total,
         "traces_validated_against_impl": total,
@@ -1351,7 +1644,10 @@ def run(ctx):
                 "uniform +-1000, log-uniform 1e-30..1e30 and 1e-280..1e280, ints as float and as int, decimals); "
                 "sonar: 4 output units x periods/voltages (multiples of the scale, uniform, log-uniform, negative); "
                 "pressure: voltage_in in {default, ints, floats, 0, tiny, negative} x voltage (around the floor, "
-                "negative, uniform 0-5) x optional calibrate(p) at the same or another voltage; forests: 2-12 units, "
+                "negative, uniform 0-5) x optional calibrate(p) at the same or another voltage; histories: ONE sensor "
+                "object, 2-8 (thorough 12) calls: reads and calibrate(p) (p >= 0, some < 0, some -25 which raises) "
+                "over 1-3 voltages, 45 % start with a read, reads at the voltage of the calibration in force "
+                "preferred, every call's result compared; forests: 2-12 units, "
                 "1-3 roots, depth <= 6, exact affine links, 5 conversions each. non-trivial = units differ and "
                 "value != 0 (convert), reading != 0 (sonar), every pressure case, >= 2 callable applications (forest)",
         "exhaustive": False,
@@ -1359,6 +1655,7 @@ def run(ctx):
         "samples": [
             {"convert": [NAMES[conv[30][0]], NAMES[conv[30][1]], repr(conv[30][2])], "impl": repr(conv[30][3])},
             {"pressure": repr(press[7][:3]), "impl": repr(press[7][3])},
+            {"history": [repr(hist[-1][0]), show_ops(hist[-1][1])], "impl": repr(hist[-1][2])},
             {"forest": [[p, str(k), str(d)] for p, k, d in forest[-1][0]], "src": forest[-1][1], "dst": forest[-1][2],
              "x": str(forest[-1][3]), "impl": repr(forest[-1][4])},
         ],
@@ -1371,11 +1668,13 @@ def run(ctx):
             "forest": [c[0] for c in disagree["forest"][:20]],
             "sonar": [(c[0], c[1], c[2]) for c in disagree["sonar"][:20]],
             "pressure": [(c[0], c[1], c[2]) for c in disagree["pressure"][:20]],
+            "history": [(c[0], c[1]) for c in disagree["history"][:20]],
         }
         for f in (lambda: oracle_units(im, r, n, firsts["units"]),
                   lambda: oracle_forests(im, r, n // 4, firsts["forest"]),
                   lambda: oracle_sonar(im, r, n, firsts["sonar"]),
-                  lambda: oracle_pressure(im, r, n * 4, firsts["pressure"])):
+                  lambda: oracle_pressure(im, r, n * 4, firsts["pressure"]),
+                  lambda: oracle_history(im, r, n * 2, firsts["history"])):
             v = f()
             if v:
                 return [v]
@@ -1386,7 +1685,7 @@ def run(ctx):
 
 def replay(ctx, obj):
     im = impl()
-    if obj.get("kind") in ("convert", "forest", "sonar", "pressure"):
+    if obj.get("kind") in ("convert", "forest", "sonar", "pressure", "history"):
         v = check_obj(im, obj)
         print("recorded: %s" % obj.get("what"))
         if v is not None:
